@@ -232,6 +232,14 @@ def run_case(case, ctx):
         xx = complex(x[0]) if (case.get('scalar_x') and dim == 1) else x
         if np.iscomplexobj(xx) and not np.any(np.imag(xx)):
             xx = np.real(xx)
+        if 'seed' in case and case['seed'] % 4 == 3:
+            # the complex data in single precision (complex64): complex all the same
+            ctx.count('complex_misuse_in_complex64')
+            if np.iscomplexobj(xx):
+                xx = np.complex64(xx) if np.ndim(xx) == 0 else np.asarray(xx).astype(np.complex64)
+            if what in ('complex_f', 'both'):
+                f_dbl = f
+                f = lambda t: np.asarray(f_dbl(t)).astype(np.complex64)[()]
         def misuse():
             if 'seed' in case and case['seed'] % 5 < 2:
                 # the object was built (and used) with a real-step method and reaches the complex-step method through the setter
